@@ -42,11 +42,15 @@ type c17WDir struct {
 	Parent *int       `json:"parent,omitempty"`
 	DotEnv *c17WEnv   `json:"dotenv,omitempty"`
 	Files  []c17WFile `json:"files"`
+	// Link: the directory is reached through a symbolic link of this name (the real directory is <name>.target);
+	// the model is unaffected: the project directory's base name is the link's own name
+	Link bool `json:"link,omitempty"`
 }
 
 type c17WRef struct {
-	D int     `json:"d"`
-	F *string `json:"f,omitempty"` // nil: the path denotes a directory whose parent is D
+	D     int     `json:"d"`
+	F     *string `json:"f,omitempty"`     // nil: the path denotes a directory whose parent is D
+	Stdin bool    `json:"stdin,omitempty"` // the path "-"
 }
 
 type c17WPath struct {
@@ -75,6 +79,7 @@ type c17Wire struct {
 	EnvFiles []c17WEnv  `json:"envfiles"`
 	Opts     []c17Opt   `json:"opts"`
 	Probe    string     `json:"probe"`
+	Stdin    []c17Doc   `json:"stdin,omitempty"` // documents of the compose file on standard input (config path "-")
 }
 
 func c17WEnvOf(f c17EnvFile) c17WEnv {
@@ -95,7 +100,7 @@ func (a c17Args) wire() c17Wire {
 	if w.OS == nil {
 		w.OS = []string{}
 	}
-	d0 := c17WDir{Name: a.Dir, Files: []c17WFile{}}
+	d0 := c17WDir{Name: a.Dir, Files: []c17WFile{}, Link: a.DirLink}
 	for fi, docs := range a.Files {
 		n := fmt.Sprintf("compose%d.yaml", fi)
 		d0.Files = append(d0.Files, c17WFile{Name: n, Docs: docs})
@@ -110,7 +115,7 @@ func (a c17Args) wire() c17Wire {
 	if alt == "" {
 		alt = "alt"
 	}
-	d1 := c17WDir{Name: alt, Files: []c17WFile{}}
+	d1 := c17WDir{Name: alt, Files: []c17WFile{}, Link: a.AltLink}
 	if a.AltDot != nil {
 		e := c17WEnvOf(*a.AltDot)
 		d1.DotEnv = &e
@@ -180,14 +185,50 @@ func realC17Load(raw json.RawMessage) any {
 		paths[i] = filepath.Join(base, d.Name)
 		return paths[i], true
 	}
-	for i, d := range a.Dirs {
+	made := make([]bool, len(a.Dirs))
+	var mk func(i int) bool
+	mk = func(i int) bool {
+		if made[i] {
+			return true
+		}
 		p, ok := pathOf(i, 0)
 		if !ok {
+			return false
+		}
+		d := a.Dirs[i]
+		if d.Parent != nil && !mk(*d.Parent) {
+			return false
+		}
+		if d.Link {
+			if err := os.MkdirAll(filepath.Dir(p), 0o755); err != nil {
+				return false
+			}
+			if err := os.MkdirAll(p+".target", 0o755); err != nil {
+				return false
+			}
+			if err := os.Symlink(filepath.Base(p)+".target", p); err != nil {
+				return false
+			}
+		} else if err := os.MkdirAll(p, 0o755); err != nil {
+			return false
+		}
+		made[i] = filepath.Base(p) == d.Name
+		return made[i]
+	}
+	for i := range a.Dirs {
+		if !mk(i) {
 			return c17Bad("directory %d not usable", i)
 		}
-		if err := os.MkdirAll(p, 0o755); err != nil || filepath.Base(p) != d.Name {
-			return c17Bad("directory name not usable")
+	}
+	// the process directory must not be reached through a link (os.Getwd would report the physical path)
+	for i, n := a.Cwd, 0; i >= 0 && i < len(a.Dirs) && n <= len(a.Dirs); n++ {
+		if a.Dirs[i].Link {
+			return c17Bad("process directory under a symbolic link")
 		}
+		if a.Dirs[i].Parent == nil {
+			break
+		}
+		i = *a.Dirs[i].Parent
 	}
 	for i, d := range a.Dirs {
 		for _, f := range d.Files {
@@ -229,6 +270,10 @@ func realC17Load(raw json.RawMessage) any {
 	}
 	var configs []string
 	for _, g := range a.Given {
+		if g.Stdin {
+			configs = append(configs, "-")
+			continue
+		}
 		p, ok := refPath(g)
 		if !ok {
 			return c17Bad("given config not a file reference")
@@ -319,13 +364,37 @@ func realC17Load(raw json.RawMessage) any {
 	if err != nil {
 		return map[string]any{"err": c17ErrClass(err), "at": "options"}
 	}
+	nStdin := 0
 	for _, cp := range po.ConfigPaths {
 		if cp == "-" {
-			return c17Bad("stdin config path") // would read the harness' own stdin
+			nStdin++
+			continue
 		}
 		if !strings.HasPrefix(cp, root+string(filepath.Separator)) {
 			return c17Bad("config path outside the test tree: %s", cp)
 		}
+	}
+	if nStdin > 1 {
+		return c17Bad("more than one stdin config path")
+	}
+	if nStdin == 1 {
+		// standard input of this child is the harness' own protocol pipe (the server holds its *os.File): the
+		// package variable is pointed at a file with the case's content for the duration of the load
+		var parts []string
+		for di, doc := range a.Stdin {
+			parts = append(parts, c17Yaml(a.Probe, 0, di, doc))
+		}
+		sp := filepath.Join(root, "stdin.yaml")
+		if err := os.WriteFile(sp, []byte(strings.Join(parts, "---\n")), 0o644); err != nil {
+			return c17Bad("%v", err)
+		}
+		f, err := os.Open(sp)
+		if err != nil {
+			return c17Bad("%v", err)
+		}
+		old := os.Stdin
+		os.Stdin = f
+		defer func() { os.Stdin = old; f.Close() }()
 	}
 	p, err := po.LoadProject(context.Background())
 	if err != nil {
